@@ -39,11 +39,7 @@ func NewBounds(p ckks.Parameters, h, pow2 int) Bounds {
 		b.Emb = 2 * float64(p.N())
 	}
 	b.SRoot = float64(h) * b.Emb / float64(p.N())
-	xe, ok := p.Xe().(ring.DiscreteGaussian)
-	if !ok {
-		panic("cklib: Xe is not a discrete Gaussian")
-	}
-	b.B = math.Ceil(xe.Bound)
+	b.B = math.Ceil(p.NoiseBound()) // declared truncation bound of Xe
 	b.EncEps = math.Exp2(-float64(p.EncodingPrecision()))
 	return b
 }
